@@ -22,6 +22,11 @@ type Fault struct {
 	Offset int64  `json:"offset"` // fire just before byte #Offset moves
 	Kind   string `json:"kind"`   // action name, interpreted by Deco.Action; "flip" is built in
 	Bit    uint   `json:"bit,omitempty"`
+	// Kind "frameflip": flip one bit of data-stream frame number Frame (0-based,
+	// in write order on that stream), in Field "payload" or "crc", byte Offset
+	// within that field. Frames are key(8) index(4) len(4) crc(4) payload(len).
+	Frame int    `json:"frame,omitempty"`
+	Field string `json:"field,omitempty"`
 }
 
 // Deco decorates a transfer.Conn: counts bytes per stream and direction,
@@ -155,6 +160,10 @@ type DecoStream struct {
 	hasID   bool
 	w, r    atomic.Int64
 	rec     bool
+	fPos    int // frame-aware flip state: position within the current frame
+	fLen    int
+	fNo     int
+	fHdr    [20]byte
 	recMu   sync.Mutex
 	recW    []byte
 	recR    []byte
@@ -193,9 +202,54 @@ func (s *DecoStream) fire() {
 	}
 }
 
+// frameFlip walks the written bytes through the data-frame state machine and
+// flips the configured bit when the target byte passes. Returns a copy of p
+// when it modified it.
+func (s *DecoStream) frameFlip(p []byte) []byte {
+	f := s.d.Fault
+	out := p
+	for i := 0; i < len(p); i++ {
+		inHeader := s.fPos < 20
+		if inHeader {
+			s.fHdr[s.fPos] = p[i]
+		}
+		hit := false
+		if s.fNo == f.Frame && !s.d.fired.Load() {
+			if f.Field == "crc" && inHeader && s.fPos == 16+int(f.Offset%4) {
+				hit = true
+			}
+			if f.Field == "payload" && !inHeader && int64(s.fPos-20) == f.Offset {
+				hit = true
+			}
+		}
+		if hit {
+			if &out[0] == &p[0] {
+				out = append([]byte(nil), p...)
+			}
+			out[i] ^= 1 << (f.Bit % 8)
+			s.d.fired.Store(true)
+		}
+		s.fPos++
+		if s.fPos == 20 {
+			s.fLen = int(uint32(s.fHdr[12])<<24 | uint32(s.fHdr[13])<<16 | uint32(s.fHdr[14])<<8 | uint32(s.fHdr[15]))
+		}
+		if s.fPos >= 20 && s.fPos == 20+s.fLen {
+			s.fPos = 0
+			s.fNo++
+		}
+	}
+	return out
+}
+
 func (s *DecoStream) Write(p []byte) (int, error) {
 	if s.d.OnIO != nil {
 		s.d.OnIO(s.ordinal, "w", len(p))
+	}
+	if f := s.d.Fault; f != nil && f.Kind == "frameflip" && f.Stream == s.ordinal && len(p) > 0 {
+		q := s.frameFlip(p)
+		n, err := s.inner.Write(q)
+		s.account("w", q[:n])
+		return n, err
 	}
 	cur := s.w.Load()
 	k, hit := s.faultAt("w", cur, len(p))
